@@ -308,6 +308,7 @@ class Engine:
         self.divergence: Divergence | None = None
         self.compared = 0
         self.closed_order = []
+        self.last_failed = False
 
     # -- real-side helpers
     def new_val(self, label):
@@ -417,7 +418,7 @@ class Engine:
                 def fmt(x):
                     return [("+".join(TNAME.get(t, str(t)) for t in e[0]),) + tuple(e[1:]) for e in x]
 
-                diverge({"C18"}, f"events:{op.kind}:{op.variant if op.kind != 'look' else op.api}:c{m.idx}:got={len(real)}:exp={len(exp)}",
+                diverge({"C18", "C03"} if self.last_failed else {"C18"}, f"events:{op.kind}:{op.variant if op.kind != 'look' else op.api}:c{m.idx}:got={len(real)}:exp={len(exp)}",
                         f"step {step} {op.text()}: events on c{m.idx}: got {fmt(real)} expected {fmt(exp)}")
 
     # -- operations
@@ -458,6 +459,7 @@ class Engine:
             lambda ctx: ctx.add_resource(value, name, args_types, description=desc, **kwargs)
         )
         got = type(box.exc) if box.exc is not None else None
+        self.last_failed = expect_exc is not None
         if got is not expect_exc:
             diverge({"C03"}, f"add:{op.variant}:raised={got.__name__ if got else None}:expected={expect_exc.__name__ if expect_exc else None}",
                     f"{op.text()} -> {box.exc!r}")
@@ -487,6 +489,7 @@ class Engine:
             lambda ctx: ctx.add_resource_factory(cb, name, types=types, description=mf.description)
         )
         got = type(box.exc) if box.exc is not None else None
+        self.last_failed = expect_exc is not None
         if got is not expect_exc:
             diverge({"C03"}, f"fac:{op.variant}:raised={got.__name__ if got else None}:expected={expect_exc.__name__ if expect_exc else None}",
                     f"{op.text()} -> {box.exc!r}")
@@ -580,6 +583,7 @@ class Engine:
                 await tg.start(root.run, tg)
                 for step, op in enumerate(self.ops):
                     self.trace.append(op.text())
+                    self.last_failed = False
                     if op.kind == "create":
                         await self.op_create(op, tg)
                     elif op.kind == "add":
